@@ -247,6 +247,33 @@ def write_rules(ctx, facts, rep):
         c = norm(exff.operand(fc[0][1]["args"][1], (fc[0][0], None)))
         good = c[0] == "call" and c[1].endswith("Hasher::finalize") and ".hasher" in tokens(c)
     ok &= rep.check(good, rule, "crc-of-plaintext", where(ff, ff.span), "finish(crc32) receives the finalised hash of the plaintext", "ZipCryptoWriter::finish is given %s" % (show(c) if fc else "?"))
+    # finish() CONSUMES the encrypting writer: once its buffer has been encrypted and handed to the sink, no value of that type is left
+    # that could be finished (or written to) again -- ownership is the typestate.  A `&mut self` finish leaves an emptied writer
+    # behind that a later close indexes at [11].
+    a1 = fin.local_ty(1) or ""
+    ok &= rep.check(not a1.startswith("&"), rule, "finish-consumes-self", where(fin, fin.span), "ZipCryptoWriter::finish takes `self` by value",
+                    "ZipCryptoWriter::finish takes %s: a finished encrypting writer stays reachable (closing it again panics on the emptied buffer, or emits a second header)" % a1)
+    # ... and it is the ONLY way to get the sink back: nothing outside zipcrypto.rs reads or moves the fields of a ZipCryptoWriter
+    # (e.g. `writer.writer` to skip the header for entries that received no data -- the entry stays flagged encrypted)
+    touch = []
+    for g in facts.fns:
+        if g.path.startswith(("zipcrypto::", "<zipcrypto::")):
+            continue
+        for bi, si, st_ in g.stmts():
+            if st_["k"] != "assign":
+                continue
+            places = []
+            rv = st_["rv"]
+            if rv["k"] == "use" and rv["op"]["k"] != "const":
+                places.append(rv["op"]["place"])
+            if rv["k"] in ("ref", "rawptr"):
+                places.append(rv["place"])
+            places.append(st_["place"])
+            for pl in places:
+                if any(q["k"] == "field" and (q.get("adt") or "").endswith("zipcrypto::ZipCryptoWriter") for q in pl["p"]):
+                    touch.append("%s (%s)" % (g.path.split("::")[-1], where(g, st_["span"])))
+    ok &= rep.check(not touch, rule, "fields-private-to-zipcrypto", "", "no code outside zipcrypto.rs projects into a ZipCryptoWriter",
+                    "the encrypting writer's fields are accessed in %s: the sink can be recovered without finish() (no header, no ciphertext)" % sorted(set(touch))[:3])
     wr = facts.method(r"^zipcrypto::ZipCryptoWriter<", "write", r"std::io::Write")
     good = bool(calls_matching(wr, r"extend_from_slice$")) and not calls_matching(wr, r"io::Write::write")
     ok &= rep.check(good, rule, "buffer-then-encrypt", where(wr, wr.span), "plaintext is buffered until finish (check byte needs the final CRC)", "ZipCryptoWriter::write no longer buffers")
